@@ -42,10 +42,10 @@ def make_blob(rng, enc_len=None, sid=None):
     return DPAPINGBlob(
         key_identifier=gen.rand_kid(rng),
         protection_descriptor=SIDDescriptor(sid if sid is not None else rng.choice(["S-1-5-18", "S-1-5-21-1-2-3-1103", "S-1-1-0", "", "not a sid", "S-1-5-21-" + "9" * 9 + "-éü😀"])),
-        enc_cek=gen.rand_bytes(rng, rng.choice([0, 1, 24, 40, 72])), enc_cek_algorithm=rng.choice([WRAP, WRAP, "1.2.3", "2.5.4.3"]),
+        enc_cek=gen.rand_bytes(rng, rng.choice([0, 1, 24, 40, 72])), enc_cek_algorithm=rng.choice([WRAP, WRAP, "1.2.3", "2.5.4.3", "1.3.132.0.34", "0.4.0.127.0.7.1.1.5.1.1.3", "2.5.4.0", "1.0.10118.3.0.55", "2.39.0.0.0"]),
         enc_cek_parameters=rng.choice([None, None, b"\x05\x00", gen.rand_bytes(rng, 5)]),
         enc_content=bytes([n % 251]) * n if n > 300 else gen.rand_bytes(rng, n),
-        enc_content_algorithm=rng.choice([GCM, GCM, "1.2.840.113549.1.7.1"]),
+        enc_content_algorithm=rng.choice([GCM, GCM, "1.2.840.113549.1.7.1", "1.3.132.0.35", "1.2.0", "2.16.840.1.101.3.4.1.0.46"]),
         enc_content_parameters=rng.choice([None, bytes.fromhex("3011040c") + gen.rand_bytes(rng, 12) + bytes.fromhex("020110"), gen.rand_bytes(rng, 3)]))
 
 
